@@ -481,6 +481,16 @@ class Report:
 
 def check_contract(rep: Report, repo, con, registry, known_open, budget_ms, kmax):
     pid = rep.pid
+    if getattr(con, "thorough_only", False) and rep.tier == "quick" and not os.environ.get("Y0VC_IGNORE_HARD"):
+        rep.assumed_contracts.append(f"{con.qual} (VC generation takes several minutes: its obligations are generated and discharged in the "
+                                     f"thorough tier only; in the quick tier its contract is used as stated and the bounded part decides)")
+        rep.bounded_only.add(con.qual)
+        try:
+            fi = repo.func(con.qual)
+            rep.functions[fi.qualname] = fi.sha
+        except KeyError:
+            pass
+        return
     if getattr(con, "assumed", False):
         try:
             fi = repo.func(con.qual)
@@ -506,7 +516,7 @@ def check_contract(rep: Report, repo, con, registry, known_open, budget_ms, kmax
         rep.obls.append(o)
         rep.undecided.append(o)
         return
-    skip = rep.hard if rep.tier == "quick" else set()
+    skip = rep.hard if (rep.tier == "quick" and not os.environ.get("Y0VC_IGNORE_HARD")) else set()
     todo = [i for i in G.instances if i.oid not in skip]
     solved = solve_all(todo, budget_ms=budget_ms, want_smt2=False)
     it = iter(solved)
